@@ -1015,8 +1015,7 @@ func (w *_mapAssemblerRepr) AssembleKey() datamodel.NodeAssembler {
 }
 
 func (w *_mapAssemblerRepr) AssembleValue() datamodel.NodeAssembler {
-	asm := (*_mapAssembler)(w).AssembleValue()
-	return (*_assemblerRepr)(asm.(*_assembler))
+	return assemblerRepr((*_mapAssembler)(w).AssembleValue())
 }
 
 func (w *_mapAssemblerRepr) AssembleEntry(k string) (datamodel.NodeAssembler, error) {
